@@ -168,7 +168,41 @@ def generate(rng, tier, index):
     labels = []
     urls = sorted(store)
     mode = rng.choice(["content", "content", "content", "graph", "override",
-                       "import", "mixed", "clean"])
+                       "import", "mixed", "clean", "name-clash"])
+    clash_override = None
+    if mode == "name-clash":
+        # a key line (or an override) that uses the NAME OF A SECTION SLOT of
+        # its container as a key, and a section header that uses a key's
+        # name as the section name
+        _entries, _sections, before = layout.walk(uni)
+        cands = []
+        for (u, idx), (ctx, sid) in sorted(before.items()):
+            for it in G.all_items(ir, ctx):
+                if it["kind"] == "section" and it["name"] not in ("*", "+"):
+                    cands.append((u, idx, sid, it["name"], "slot-as-key"))
+                elif it["kind"] in ("key", "multikey") and it["name"] != "+":
+                    cands.append((u, idx, sid, it["name"], "key-as-name"))
+        if cands:
+            u, idx, sid, nm, what = rng.choice(cands)
+            ls = store[u].split("\n")
+            if what == "slot-as-key":
+                line = "%s somevalue" % rng.choice([nm, nm.upper()])
+                if rng.random() < 0.3:
+                    path = []
+                    while sid >= 0:
+                        path.append(_sections[sid]["name"]
+                                    or _sections[sid]["type"])
+                        sid = _sections[sid]["parent"]
+                    clash_override = "/".join(list(reversed(path)) + [nm]) \
+                        + "=x"
+                    line = None
+            else:
+                tn = G.concrete_types(ir)
+                line = "<%s %s/>" % (rng.choice(tn), nm) if tn else None
+            if line is not None:
+                ls.insert(idx, line)
+                store[u] = "\n".join(ls)
+            labels.append("name-clash:" + what)
     if mode in ("content", "mixed"):
         for _ in range(rng.randint(1, 4)):
             u = rng.choice(urls)
@@ -211,6 +245,8 @@ def generate(rng, tier, index):
                 rng, store[u], "%import " + rng.choice(corrupt.ODD_IMPORTS))
             labels.append("odd-import")
     overrides = []
+    if clash_override:
+        overrides.append(clash_override)
     if mode in ("override", "mixed") or rng.random() < 0.15:
         pool = _override_pool(rng, ir, uni)
         for _ in range(rng.randint(1, 3)):
